@@ -88,6 +88,14 @@ func copyGo(src, dst, modPath string) error {
 	return nil
 }
 
+// CopySimrt adds the gate runtime and the generated site table to an instrumented module.
+func CopySimrt(verif, dir string, rep *instr.Report) error {
+	if err := copyGo(filepath.Join(verif, "simrt"), filepath.Join(dir, "simrt"), rep.ModPath); err != nil {
+		return err
+	}
+	return rep.WriteSiteTable(filepath.Join(dir, "simrt", "zz_sites.go"))
+}
+
 // Result of Prepare.
 type Result struct {
 	Scratch string
